@@ -1232,8 +1232,11 @@ except Exception:  # pragma: no cover
 #   EXTRA_MODELS[real_function_object] = model(eng, args, kwargs)
 #   EXTRA_METHODS[(ValueClass, "method_name")] = model(eng, recv, args, kwargs)     (SArr / NArr / PList / PDict ...)
 # Each such model must record what it assumes with eng.assumptions.add("...") so that evidence lists it.
+#   EXTRA_ELEMENT_HOOKS: [hook(eng, element_value, index_var, length, kind)] for comprehensions over a symbolic sequence whose
+#   element is not a scalar (e.g. one 1-D array per position); a hook returns the value of the comprehension or None
 EXTRA_MODELS = {}
 EXTRA_METHODS = {}
+EXTRA_ELEMENT_HOOKS = []
 
 
 def lookup_model(fn):
